@@ -8,7 +8,7 @@ ps=("$@"); [ ${#ps[@]} = 0 ] && ps=(neutral/*.patch)
 propsfor(){ # the claimed properties with units in (or inlining code of) the packages a patch touches
   local dirs; dirs=$(grep '^+++ ' "$1" | sed 's#^+++ b/##; s#/[^/]*$##' | sort -u); local out=""
   for d in $dirs; do case $d in
-    actions) out="$out C01 C02 C03 C04 C05 C06 C09 C10 C13 C14 C15 C19";;
+    actions) out="$out C01 C02 C03 C04 C05 C06 C09 C10 C11 C13 C14 C15 C19";;
     services) out="$out C02 C03 C04 C09 C12 C16 C17";;
     filter) out="$out C07 C08 C01";;
     faults) out="$out C18";;
